@@ -786,6 +786,28 @@ fn jobcheck_main(env: &mut Env<VS>, args: Vec<Field>) -> BFut<'_> {
         if let Err((class, msg)) = crate::c12::check_invariants(&env.jobs) {
             ctl.record(pid, "jobcheck-fail", 0, 0, &format!("{class}: {msg} at {summary}"));
         }
+        // `fg:STATUS:N`: `fg %N` has just returned STATUS; if that says the job
+        // was killed by a signal, the job has left the table (a foreground job
+        // that terminates is removed)
+        for a in strs(&args) {
+            if let Some(rest) = a.strip_prefix("fg:")
+                && let Some((st, n)) = rest.split_once(':')
+                && let (Ok(st), Ok(n)) = (st.parse::<u32>(), n.parse::<usize>())
+                // (384 + a stop signal means "stopped again": KILL and TERM only)
+                && matches!(st, 393 | 399)
+                && n >= 1
+                && let Some(j) = env.jobs.get(n - 1)
+                && !j.state.is_alive()
+            {
+                ctl.record(
+                    pid,
+                    "jobcheck-fail",
+                    0,
+                    0,
+                    &format!("fg-left-finished-job: `fg %{n}` returned {st} (killed by a signal) but the job is still in the table at {summary}"),
+                );
+            }
+        }
         // $! designates the most recent asynchronous job if it is still listed
         let last = env.jobs.last_async_pid();
         if last.0 != 0
